@@ -347,6 +347,7 @@ def k2_termination(ctx):
         p = object.__new__(m._RtfParser)
         p.encoding = "cp1252"
         p.pages = []
+        p._codec = "cp1252"
         if ctx.concrete:
             target = {"rtf_full": lambda: p._strip_rtf_full_with_pages(text),
                       "rtf_ignorable": lambda: p._remove_ignorable_groups(text)}[which]
@@ -359,6 +360,15 @@ def k2_termination(ctx):
             ign = lift.lift(m._RtfParser._remove_ignorable_groups, **ns)
             skip = lift.lift(m._RtfParser._is_skip_destination, **ns)
             p._is_skip_destination = lambda ahead: skip(p, ahead)
+            # \'hh: int(hh, 16) as in the code (ValueError for non-hex digits), then one character of
+            # the document code page - over-approximated by an arbitrary character (termination only)
+            _hx = [0]
+
+            def _hex_escape(hh):
+                S.IntShadow(hh, 16)
+                _hx[0] += 1
+                return ctx.fresh_chars(f"cp_char{_hx[0]}", 1, 1, 0xFFFF)
+            p._decode_hex_escape = _hex_escape
             ctx.hash_universe = set(m._RtfParser.SPECIAL_CHARS)
             target = {"rtf_full": lambda: full(p, text), "rtf_ignorable": lambda: ign(p, text)}[which]
         shadows = {}
